@@ -203,4 +203,45 @@ theorem slice_lines {t : FText} {a b : Pos} (va : Valid t a) (vb : Valid t b) (h
   rw [if_neg (by intro hh; exact hnz hh.1)]
   exact ⟨_, rfl, rfl⟩
 
+theorem lcOff_strict (lines : List Str) (i1 c1 i2 c2 : Nat) (h1 : i1 < lines.length)
+    (hc1 : c1 ≤ (lines.getD i1 []).length)
+    (hlt : i1 < i2 ∨ (i1 = i2 ∧ c1 < c2)) : lcOff lines i1 c1 < lcOff lines i2 c2 := by
+  induction lines generalizing i1 i2 with
+  | nil => simp at h1
+  | cons l ls ih =>
+    cases i1 with
+    | zero =>
+      cases i2 with
+      | zero => simp [lcOff]; omega
+      | succ j2 =>
+        simp [lcOff] at hc1 ⊢
+        omega
+    | succ j1 =>
+      cases i2 with
+      | zero => omega
+      | succ j2 =>
+        simp only [lcOff]
+        have := ih j1 j2 (by simpa using h1) (by simpa using hc1) (by omega)
+        omega
+
+theorem off_strict {t : FText} {a b : Pos} (va : Valid t a) (vb : Valid t b) (h : a.lt b = true) :
+    t.off a < t.off b := by
+  unfold FText.off
+  apply lcOff_strict _ _ _ _ _ va.hi va.hlen
+  unfold Pos.lt at h
+  have := va.hl; have := vb.hl
+  have hca := va.hc; have hcb := vb.hc
+  simp at h
+  rcases h with h | ⟨h1, h2⟩
+  · left; omega
+  · right
+    rw [h1] at hca ⊢
+    exact ⟨rfl, by omega⟩
+
+theorem extract_head {α} (s : List α) (a b : Nat) (hab : a < b) (hb : b ≤ s.length) :
+    (extract s a b).head? = s[a]? := by
+  unfold extract
+  rw [List.head?_drop, List.getElem?_take]
+  simp [hab]
+
 end Pfb
